@@ -469,7 +469,7 @@ func provEnumNumbers(r *core.Run) {
 				if !ok || s.Sel.Name != "Number" || !strings.HasSuffix(core.TypeStr(p2.TypesInfo.TypeOf(s.X)), "schema_j5pb.Enum_Option") {
 					return true
 				}
-				o := r.Add("R-PROV/V2", fmt.Sprintf("%s.%s | read of Enum_Option.Number: %s", rel, core.FuncName(fd), parentStr(parents[s])), s.Pos(), "read of the source enum option number")
+				o := r.Add("R-PROV/V2", fmt.Sprintf("%s.%s | read of Enum_Option.Number: %s", rel, core.FuncName(fd), parentNorm(p2.TypesInfo, parents[s])), s.Pos(), "read of the source enum option number")
 				if b, ok := parents[s].(*ast.BinaryExpr); ok && b.Op == token.EQL {
 					if k, ok := core.ConstInt(p2.TypesInfo, b.Y); ok && k == 0 {
 						o.Auto("only compared with 0 (UNSPECIFIED probe)")
@@ -729,6 +729,24 @@ func provNames(r *core.Run) {
 	} else {
 		o.Fail("default nesting name is %q, expected strcase.ToCamel(<property name>)", found)
 	}
+}
+
+// parentNorm prints the construct a read sits in with locals replaced by their
+// types (rename-proof key text).
+func parentNorm(info *types.Info, n ast.Node) string {
+	cut := func(s string) string {
+		if r := []rune(s); len(r) > 60 {
+			return string(r[:60])
+		}
+		return s
+	}
+	switch x := n.(type) {
+	case ast.Expr:
+		return cut(core.NormExpr(info, x))
+	case *ast.AssignStmt:
+		return cut(core.NormExpr(info, x.Lhs[0])) + " = " + cut(core.NormExpr(info, x.Rhs[0]))
+	}
+	return fmt.Sprintf("%T", n)
 }
 
 func parentStr(n ast.Node) string {
